@@ -240,9 +240,13 @@ class Keys:
         return bad[i % len(bad)]
 
     def table(self):
-        """The key store as the model sees it: [name, kind code, key size]."""
+        """The key store as the model sees it: [context, name, kind code, key size]."""
         code = {"ec": 0, "ed25519": 1, "ed448": 2, "other": 3}
-        return [[n.encode(), code[k], ks] for n, (k, ks, _) in self.keys.items()]
+        return [[self.dir.encode(), n.encode(), code[k], ks] for n, (k, ks, _) in self.keys.items()]
+
+    def key_id(self, name):
+        """How the model names the key: <context>/<name>."""
+        return self.dir.encode() + b"/" + (name.encode() if isinstance(name, str) else name)
 
     def pub(self, name):
         return self.keys[name][2].public_key()
@@ -355,7 +359,7 @@ def check_new_block(ei, eo, kept, keys, key_name, alg, kid):
     return verify(keys, key_name, alg, sig_structure(prot, old[0][0]), sig)
 
 
-def table_from_output(out, key_name, alg):
+def table_from_output(out, keys, key_name, alg):
     """Oracle-table rows for the model: for every COSE_Sign1 block of the output wrapper the (message, signature) pair, with the
     message rebuilt from the block's protected header and the digest element."""
     rows = []
@@ -371,12 +375,12 @@ def table_from_output(out, key_name, alg):
             prot, sig = read_block(v)
         except Exception:  # noqa: BLE001
             continue
-        rows.append(sig_row(key_name, alg, sig_structure(prot, els[0][0]), sig))
+        rows.append(sig_row(keys, key_name, alg, sig_structure(prot, els[0][0]), sig))
     return rows
 
 
-def sig_row(key_name, alg, msg, sig):
-    kn = key_name.encode() if isinstance(key_name, str) else key_name
+def sig_row(keys, key_name, alg, msg, sig):
+    kn = keys.key_id(key_name)
     if alg in KEY_SIZE:
         w = len(sig) // 2
         return [kn, msg, 0, sig[:w], sig[w:]]
@@ -519,7 +523,9 @@ def kms():
 # ---------------------------------------------------------------- envelopes
 def strip_auth(desc):
     """Remove a pre-existing (fake) signature block from the top level of a generated description."""
-    desc["SUIT_Envelope_Tagged"]["suit-authentication-wrapper"].pop("SuitAuthentication1", None)
+    w = desc["SUIT_Envelope_Tagged"]["suit-authentication-wrapper"]
+    for k in [k for k in w if k != "SuitDigest"]:
+        del w[k]
     return desc
 
 
@@ -543,6 +549,12 @@ def make_envelopes(ck, tmp, n, max_depth=2, signed_ok=False):
         except Exception:  # noqa: BLE001  (a description the tool rejects: not an envelope of the image of create)
             continue
         feats = sorted(k for k in d["SUIT_Envelope_Tagged"] if k not in ("suit-authentication-wrapper", "suit-manifest"))
+        if not signed_ok:
+            try:
+                if any(is_sign1(v) for v, _ in Envelope(b).wrapper_elements()):
+                    continue
+            except Exception:  # noqa: BLE001
+                continue
         out.append((b, feats))
     return out
 
